@@ -24,10 +24,28 @@ def run(ctx):
         'C09 + C16.')
     ctx.not_decided = ['equality of the transposed grid with the source grid on all documents']
     tt = ctx.prog.func(f'{N.DOCUMENT}.Document.to_transposed')
-    r1_effects(ctx, tt)
+    eng = r1_effects(ctx, tt)
+    global _SCOPE
+    _SCOPE = [f for f in eng.reachable(tt) if f.module.name == N.DOCUMENT and not isinstance(f.node, ast.Lambda)]
+    if tt not in _SCOPE:
+        _SCOPE.insert(0, tt)
     r2_delegation(ctx, tt)
     r3_dispatch(ctx, tt)
     r4_accidental(ctx, tt)
+    r5_no_unbounded_recursion(ctx, tt, eng)
+    from . import c09
+    ctx.alias = {'R4': 'R2'}
+    c09.r4_delegation(ctx)       # the chain transpose -> transpose_agnostics -> AgnosticPitch.to_transposed forwards interval and direction
+    ctx.alias = {}
+
+
+_SCOPE = []
+
+
+def scope_nodes():
+    for f in _SCOPE:
+        for n in walk_local(f.node):
+            yield f, n
 
 
 def r1_effects(ctx, tt):
@@ -53,17 +71,50 @@ def r1_effects(ctx, tt):
     for e in other:
         ctx.violation('R1', e.loc, tt.qualname, f'shared-state-write:{e.root[1]}', f'{e.func} {e.what}: writes shared state')
     ctx.analysed['functions_reachable'] = len(eng.reachable(tt))
+    return eng
 
 
 def _transpose_calls(ctx, tt):
+    """calls of transposer.transpose in to_transposed and in the functions of document.py it reaches (visitors, helpers)"""
     tr = ctx.prog.func(f'{N.TRANSPOSER}.transpose')
     out = []
-    for n in walk_local(tt.node):
+    for f, n in scope_nodes():
         if isinstance(n, ast.Call):
-            r = F.callee(ctx, n, tt)
+            r = F.callee(ctx, n, f)
             if r and r[0] == 'def' and r[1] is tr:
-                out.append((n, tr))
+                out.append((n, tr, f))
     return out
+
+
+def _is_own_param(ctx, tt, cf, node, pname):
+    """node denotes to_transposed's parameter `pname`: directly, or - in a helper/visitor - through an attribute or
+    parameter that to_transposed initialises with that parameter."""
+    if node is None:
+        return False
+    if cf is tt:
+        return F.is_name(node, pname)
+    s_ = src(node)
+    # visitor attribute self.x set from a constructor argument that to_transposed passes as pname
+    if isinstance(node, ast.Attribute) and F.is_name(node.value, 'self') and cf.cls is not None:
+        init = cf.cls.methods.get('__init__')
+        if init is not None:
+            for n in walk_local(init.node):
+                if isinstance(n, ast.Assign) and src(n.targets[0]) == s_ and isinstance(n.value, ast.Name):
+                    ip = n.value.id
+                    for call in walk_local(tt.node):
+                        if isinstance(call, ast.Call) and F.constructed_class(ctx, call, tt) is cf.cls:
+                            b = F.bind_args(call, init, True)
+                            if F.is_name(b.get(ip), pname):
+                                return True
+    if isinstance(node, ast.Name) and node.id in cf.params:
+        for call in walk_local(tt.node):
+            if isinstance(call, ast.Call):
+                r = F.callee(ctx, call, tt)
+                if r and r[0] == 'def' and r[1] is cf:
+                    b = F.bind_args(call, cf, cf.cls is not None)
+                    if F.is_name(b.get(node.id), pname):
+                        return True
+    return False
 
 
 def r2_delegation(ctx, tt):
@@ -77,16 +128,16 @@ def r2_delegation(ctx, tt):
         raise AnalysisError(f'{tt.loc}: to_transposed signature changed: {tt.params}')
     calls = _transpose_calls(ctx, tt)
     ctx.expect_count('R2', 'calls of transposer.transpose in to_transposed', len(calls), 1)
-    for call, tr in calls:
-        at = f'{tt.module.relpath}:{call.lineno}'
+    for call, tr, cf in calls:
+        at = f'{cf.module.relpath}:{call.lineno}'
         b = F.bind_args(call, tr, False)
         iv = b.get('interval')
-        ok_iv = isinstance(iv, ast.Subscript) and F.is_name(iv.value, 'IntervalsByName') and F.is_name(iv.slice, p_int) \
+        ok_iv = isinstance(iv, ast.Subscript) and F.is_name(iv.value, 'IntervalsByName') and _is_own_param(ctx, tt, cf, iv.slice, p_int) \
             and ctx.prog.resolve(tt.module, 'IntervalsByName') is not None \
             and ctx.prog.resolve(tt.module, 'IntervalsByName').module.name == N.TRANSPOSER
         ctx.check(ok_iv, 'R2', at, tt.qualname, 'interval-forwarded', 'interval = IntervalsByName[interval] (the method\'s own parameter)',
                   f'interval argument is `{src(iv)}`')
-        ctx.check(F.is_name(b.get('direction'), p_dir), 'R2', at, tt.qualname, 'direction-forwarded',
+        ctx.check(_is_own_param(ctx, tt, cf, b.get('direction'), p_dir), 'R2', at, tt.qualname, 'direction-forwarded',
                   'direction is the method\'s own parameter', f'direction argument is `{src(b.get("direction"))}`')
         for fmt in ('input_format', 'output_format'):
             node = b.get(fmt) or F.param_default(tr, fmt)
@@ -121,20 +172,32 @@ def r2_delegation(ctx, tt):
         ctx.check(v, 'R2', tt.loc, tt.qualname, f'validates-{k}', f'an invalid {k} raises ValueError before the document is copied')
     # the rebuilt token carries everything else over
     nrt = ctx.prog.cls(f'{N.TOKENS}.NoteRestToken')
-    rebuilt = [n for n in walk_local(tt.node) if isinstance(n, ast.Call) and F.constructed_class(ctx, n, tt) is nrt]
+    rebuilt = [n for f_, n in scope_nodes() if isinstance(n, ast.Call) and F.constructed_class(ctx, n, f_) is nrt]
+    stores = [(f_, n) for f_, n in scope_nodes() if isinstance(n, ast.Assign) and any(isinstance(t, ast.Attribute) and t.attr == 'token'
+                                                                                  for t in n.targets)]
+    ctx.expect_count('R2', 'assignments of a node token', len(stores), 1)
+    for f_, st_ in stores:
+        ok_new = isinstance(st_.value, ast.Call) and F.constructed_class(ctx, st_.value, f_) is nrt
+        ctx.check(ok_new, 'R2', f'{f_.module.relpath}:{st_.lineno}', tt.qualname, 'token-not-rebuilt-from-own-subtokens',
+                  'a transposed node receives a NoteRestToken built in place from its own sub-tokens',
+                  f'`{src(st_)[:80]}` gives the node a token that was not built from its own sub-tokens (a cached / shared token): '
+                  f'two notes that only share the lookup key end up with the same durations and signifiers')
     ctx.expect_count('R2', 'NoteRestToken(...) constructions in to_transposed', len(rebuilt), 1)
     for call in rebuilt:
         at = f'{tt.module.relpath}:{call.lineno}'
         b = F.bind_args(call, ctx.prog.find_method(nrt, '__init__'), True)
         deco = b.get('decoration_subtokens')
+        pds = b.get('pitch_duration_subtokens')
+        own = isinstance(pds, ast.Name) and any(isinstance(x, ast.For) and 'pitch_duration_subtokens' in src(x.iter) for f2, x in scope_nodes())
+        ctx.check(own, 'R2', at, tt.qualname, 'subtokens-from-own-token', 'the new sub-token list is built by iterating the source token\'s pitch_duration_subtokens')
         ctx.check(isinstance(deco, ast.Attribute) and deco.attr == 'decoration_subtokens', 'R2', at, tt.qualname,
                   'decorations-carried-over', 'the signifiers of the source token are carried over',
                   f'decoration_subtokens is `{src(deco)}`')
     # the non-pitch branch copies encoding and category
     st = ctx.prog.cls(f'{N.TOKENS}.Subtoken')
     copies = 0
-    for n in walk_local(tt.node):
-        if isinstance(n, ast.Call) and F.constructed_class(ctx, n, tt) is st:
+    for f_, n in scope_nodes():
+        if isinstance(n, ast.Call) and F.constructed_class(ctx, n, f_) is st:
             b = F.bind_args(n, ctx.prog.find_method(st, '__init__'), True)
             e, c = b.get('encoding'), b.get('category')
             if isinstance(e, ast.Attribute) and e.attr == 'encoding' and isinstance(c, ast.Attribute) and c.attr == 'category' \
@@ -166,7 +229,7 @@ def r3_dispatch(ctx, tt):
                     carriers[c.qualname] = c
     ctx.expect_count('R3', 'pitch-bearing token classes built by the listener', len(carriers), 2)
     tested = []
-    for n in walk_local(tt.node):
+    for f_, n in scope_nodes():
         if isinstance(n, ast.Call) and F.is_name(n.func, 'isinstance') and len(n.args) == 2:
             elts = n.args[1].elts if isinstance(n.args[1], ast.Tuple) else [n.args[1]]
             for e in elts:
@@ -184,7 +247,7 @@ def r3_dispatch(ctx, tt):
 def r4_accidental(ctx, tt):
     members = {m.name: m for m in ctx.ce.enum_canonical(ctx.prog.cls(N.TOKCAT))}
     mentions = False
-    for n in walk_local(tt.node):
+    for f_, n in scope_nodes():
         if isinstance(n, ast.Attribute) and n.attr == 'ALTERATION':
             mentions = True
     calls = _transpose_calls(ctx, tt)
@@ -193,3 +256,19 @@ def r4_accidental(ctx, tt):
               'the ALTERATION sub-token takes part in the transposition',
               'only sub-tokens of category PITCH are handed to transpose(); the ALTERATION sub-token (the accidental) is copied '
               'unchanged next to the transposed letter, so `4d#` up a minor second does not become `4e`')
+
+
+def r5_no_unbounded_recursion(ctx, tt, eng):
+    """The call may fail only for an unspellable pitch: no function reachable from to_transposed may recurse over the tree
+    (one Python frame per row of the score raises RecursionError on long documents)."""
+    bad = []
+    for f in eng.reachable(tt):
+        if f.module.name == N.TOKENS or isinstance(f.node, ast.Lambda):
+            continue      # the category hierarchy has depth 4
+        summ = eng.summaries.get(id(f.node))
+        if summ is not None and id(f.node) in summ.callees:
+            bad.append(f)
+    ctx.check(not bad, 'R5', bad[0].loc if bad else tt.loc, tt.qualname, 'recursion-over-the-tree',
+              'no function reachable from to_transposed is recursive: the walk over the document is iterative',
+              f'{[b.qualname.rpartition(".")[0].rpartition(".")[2] + "." + b.name for b in bad]} reachable from to_transposed recurse over '
+              f'the tree: a score of about a thousand rows raises RecursionError although every pitch is spellable')
